@@ -127,7 +127,8 @@ CHECKS.update({
                 text="Register.tla's graph is toured on AtomicValue[int|string|struct] and TLC validates the sequential traces and free-running "
                      "concurrent histories as linearizable to one register; Pool.tla (avail/out tokens, arbitrary drops, and the per-call write of "
                      "pool.New as a named racy variant) is model-checked, real Get/Put histories over unique tokens are validated by TLC, and "
-                     "both run under the Go race detector for the data-race clause.",
+                     "both run under the Go race detector for the data-race clause. Thorough: an inductive invariant of the pool's hand-out discipline "
+                     "discharged by Apalache (unbounded behaviour length, 4 goroutines, 6 items).",
                 ref="7-C18", note="no hook points exist inside atomic.Value / sync.Pool: concurrent defects of the wrappers are found probabilistically; "
                                   "data-race clause decided by the Go race detector", technique="TLA+ models checked by TLC + tour / free-running histories of the real code + TLC trace validation + race detector"),
     "C19": dict(text="ChanHelpers.tla models the queued receivers' non-blocking loop and the timed helpers' two-way select over all orders of call "
